@@ -473,4 +473,62 @@ example : PyIRTp.runFeedGen Gen.PyIR.prog Gen.PyIR.feedGenerator cfgDemo
       (demoIR.take 4 ++ [ev 9 1 4 7, ev 10 1 4 1, ev 11 1 4 2]) none PyIR.World.empty =
     ([.result 1 [ev 0 1 4 1, ev 1 1 12 1, ev 3 1 4 2]], .error .keyError) := by decide
 
+/-! ### translation tie, continued: the constructor `__init__`
+
+  `tools/gen_pyir.py` translates `TracesParser.__init__(self, trace_codes_map, threads_pids, pids_names)` into
+  `Gen.PyIR.init : PyIRTp.InitDef`: the initialisers `self.<attr> = <parameter>` / `self.<attr> = {}` SORTED by attribute
+  (they do not depend on each other: every value is a bare parameter or an empty dict display, checked by the translator;
+  `dict()` = `{}`), and the `self.handlers.update(<family>_handlers)` calls in source order (the registry: `Props/C17`).
+  `PyIRTp.runInit d n` constructs the object from `n` arguments: which OBJECT each attribute is — `Ref.arg k`, the caller's
+  k-th argument ITSELF, or `Ref.fresh n`, the n-th dict the constructor made, empty. -/
+
+/-- **init_ir_eq_model.**  The interpreted `__init__` of the source produces exactly the initial parser state the hand
+    models start from:
+    * all ten attributes are bound;
+    * `trace_codes`, `threads_pids`, `pids_names` ARE the caller's three arguments — shared, not copied: what the container
+      parser writes into the caller's tables after construction (`set_thread_map`), the decoders read, and what the
+      `TRACE_*` handlers declare, the caller's formatter sees;
+    * `on_going_events` and `on_going_traces` are two DIFFERENT new empty dicts: the heap is `PyIR.World.empty`, from which
+      `run_ir_eq_run_model` / `feed_generator_ir_eq_pairing_model` start, and it abstracts to `Pairing.PState.empty`, from
+      which `run` / `stateAfter` / `outputs` start;
+    * with `global_strings`, `tids_names`, `last_data_newthread`, `last_data_exec` and `handlers` that makes seven
+      pairwise different new dicts;
+    * so for ANY contents `tp` / `pn` of the caller's two tables the whole-parser state is
+      `{ pairing := PState.empty, tabs := { threadsPids := tp, pidsNames := pn } }` — the other four context tables of
+      `Trace.Tabs` empty: the `startState` of `Model/TracePipeline` (next theorem). -/
+theorem init_ir_eq_model :
+    ∃ o, PyIRTp.runInit Gen.PyIR.init 3 = .ok o ∧
+      (∀ a, (o.get a).isSome = true) ∧
+      o.get .traceCodes = some (.arg 0) ∧ o.get .threadsPids = some (.arg 1) ∧ o.get .pidsNames = some (.arg 2) ∧
+      o.world = some PyIR.World.empty ∧ PyIR.abs PyIR.World.empty = PState.empty ∧
+      (∃ ns, o.freshOf [.onGoingEvents, .onGoingTraces, .globalStrings, .tidsNames, .lastDataNewthread, .lastDataExec,
+          .handlers] = some ns ∧ ns.Nodup) ∧
+      ∀ (tp : Trace.Dict Nat) (pn : Trace.Dict String),
+        o.state tp pn = some { pairing := PState.empty, tabs := { threadsPids := tp, pidsNames := pn } } := by
+  refine ⟨PyIRTp.expectedObj, ?_, ?_, rfl, rfl, rfl, rfl, PyIR.abs_empty, ⟨[0, 1, 2, 3, 4, 5, 6], rfl, by decide⟩,
+    PyIRTp.expectedObj_state⟩
+  · rw [source_is_expected_ir.2.2.2]; exact PyIRTp.runInit_expected
+  · intro a; cases a <;> rfl
+
+/-- … that state is where the request-level model starts: for every dump, the state of the object the interpreted
+    `__init__` builds on the caller's tables as `set_thread_map` fills them is `TracePipeline.startState`. -/
+theorem init_state_is_model_start (d : TracePipeline.Dump) :
+    ∃ o, PyIRTp.runInit Gen.PyIR.init 3 = .ok o ∧
+      o.state (Declared.mapTabs d.threadMap).threadsPids (Declared.mapTabs d.threadMap).pidsNames =
+        some (TracePipeline.startState d) := by
+  obtain ⟨o, h, _, _, _, _, _, _, _, hs⟩ := init_ir_eq_model
+  exact ⟨o, h, by rw [hs]; rfl⟩
+
+/-- a constructor called with another number of arguments raises `TypeError` -/
+example : PyIRTp.runInit Gen.PyIR.init 2 = .error .typeError := by decide
+
+/-- non-vacuity of the sharing clause: the interpreter tells a shared table from a copied one and one window table from
+    two — a constructor that binds `threads_pids` to a new dict, or both window tables to one object, has no model state. -/
+example : ((PyIRTp.runInit { Gen.PyIR.init with sets := Gen.PyIR.init.sets.map fun s =>
+      if s.1 = .threadsPids then (s.1, .emptyDict) else s } 3).toOption.bind fun o => o.tabs [] []).isNone = true := by
+  decide
+
+example : (PyIRTp.Obj.world { attrs := [(.onGoingEvents, .fresh 0), (.onGoingTraces, .fresh 0)], made := 1 }) = none := by
+  decide
+
 end KdVerif.C04
